@@ -12,6 +12,7 @@ pub mod c05;
 pub mod c10;
 pub mod c12;
 pub mod c16;
+pub mod c18;
 pub mod difflab;
 pub mod kit;
 pub mod langkit;
@@ -39,6 +40,7 @@ pub fn lookup(id: &str) -> Option<Prop> {
         "C10" => Prop { isolate: false, level: "model_checking", run: c10::run, replay: c10::replay },
         "C12" => Prop { isolate: false, level: "model_checking", run: c12::run, replay: c12::replay },
         "C16" => Prop { isolate: false, level: "model_checking", run: c16::run, replay: c16::replay },
+        "C18" => Prop { isolate: false, level: "model_checking", run: c18::run, replay: c18::replay },
         _ => return None,
     })
 }
